@@ -387,6 +387,8 @@ def truthy(v):
         if isinstance(t, OptT):
             inner = SV(t.inner, opt_val(t, v.z))
             return z3.And(z3.Not(opt_is_none(t, v.z)), truthy(inner))
+        if isinstance(t, ObjT) and t.family in FAMILY_TRUTHY:
+            return FAMILY_TRUTHY[t.family](v.z)
         if isinstance(t, ObjT) or t == PATH or t == ANY:
             return z3.BoolVal(True)     # families have no __bool__/__len__ unless stated
         if isinstance(t, TupT):
@@ -418,6 +420,7 @@ def strip_opt(v):
 
 FAMILY_EQ_STR = {}   # family -> function(ref_z, str_z) -> Bool   (obj == 'text')
 FAMILY_EQ = {}       # family -> function(ref_a, ref_b) -> Bool   (obj == obj); default identity
+FAMILY_TRUTHY = {}   # family -> function(ref_z) -> Bool           (bool(obj)); default True
 
 
 def py_eq(a, b):
